@@ -203,6 +203,8 @@ def _ar(name, op, swap=False):
             a, b = _to_fp(self.e), _to_fp(o)
             return SNum(_FP_AR[name](b, a) if swap else _FP_AR[name](a, b))
         if o is None:
+            if other != other:
+                return other               # finite <op> nan = nan, whatever the finite value
             # x + inf, inf - x, ...: result is an infinity; only + and - are given a meaning
             if name == 'add':
                 return other
